@@ -13,6 +13,9 @@ def check(run):
     if quick:
         ec.run_family(run, 'C03-medians-4', 'Q_C03med', 'R_num', maxA=4)
     ec.run_family(run, 'C03-two-items', 'Q_C03two', 'R_num', maxA=1 if quick else 2, hdrmodes=(False, True))
+    ec.run_family(run, 'C03-prefix-group-keys', 'Q_C03key', 'R_keysp', maxA=3)
+    ec.run_family_js(run, 'C03-js-group-key-order', 'Q_C03key', 'R_keysp', maxA=3)
+    ec.run_family_js(run, 'C03-js-numeric-group-keys', 'Q_C03key', 'R_numk', maxA=3)
     ec.run_family(run, 'C03-numeric-group-keys', 'Q_C03key', 'R_numk', maxA=3)
     ec.run_family(run, 'C03-numeric-string-group-keys', 'Q_C03keys', 'R_numks', maxA=3)
     ec.run_family(run, 'C03-int-column', 'Q_C03num', 'R_numi', maxA=2 if quick else 3)
